@@ -510,7 +510,7 @@ def main(argv):
         if rec.get("multi_case"):
             res, state, findings = check_multi(rec["multi_case"], rec["seed"])
             same = [f for f in findings if f["rule"] == rec["rule"]]
-            print("replay %s: %s" % (argv[1], "REPRODUCED rule=%s" % rec["rule"] if same else "not reproduced"))
+            print("replay %s: %s" % (argv[1], "REPRODUCED rule=%s%s" % (rec["rule"], common.digest_note(rec, same)) if same else "not reproduced"))
             return 1 if same else 0
         scn = rec["scenario"]
         ref, info = reference(scn, rec["seed"])
@@ -518,7 +518,7 @@ def main(argv):
         res, state, findings = check_point(scn, rec["seed"], tuple(rec["crash_point"]), rec["downtime"],
                                            outcome(ref, arn), arn)
         same = [f for f in findings if f["rule"] == rec["rule"]]
-        print("replay %s: %s" % (argv[1], "REPRODUCED rule=%s" % rec["rule"] if same else "not reproduced"))
+        print("replay %s: %s" % (argv[1], "REPRODUCED rule=%s%s" % (rec["rule"], common.digest_note(rec, same)) if same else "not reproduced"))
         return 1 if same else 0
     tier = common.tier()
     names = corpus.QUICK if tier == "quick" else sorted(corpus.CORPUS)
